@@ -34,15 +34,24 @@ class DropModel:
                 self.fn_shared = name
             if re.search(r"::dealloc$", name) and fn.types.get("_1") == "&mut ObjectHeader":
                 self.fn_dealloc = name
+        self.fn_sweep = self.fn_hdr_nbytes = None
+        for name, fn in allf.items():
+            if re.search(r"::sweep$", name) and fn.types.get("_1") == "&mut VmGreenThread":
+                self.fn_sweep = name
+            if re.search(r"::nbytes$", name) and fn.types.get("_1") == "&ObjectHeader":
+                self.fn_hdr_nbytes = name
+        self.gc_states = enum_variants(vmrs, "GcState")
         if not (self.fn_thread and self.fn_dealloc):
             raise Unknown("no MIR for Drop for VmGreenThread / ObjectHeader::dealloc")
         self.allf = allf
-        enums = {"Option": {"None": 0, "Some": 1}, "ObjectKind": self.kinds}
+        enums = {"Option": {"None": 0, "Some": 1}, "ObjectKind": self.kinds, "GcState": self.gc_states}
         self.m = mirvm.Machine(allf, self.resolver, self.summaries(), enums)
 
     def resolver(self, callee, fn):
         if callee == "ObjectHeader::dealloc":
             return self.fn_dealloc
+        if callee == "ObjectHeader::nbytes" and self.fn_hdr_nbytes:
+            return self.fn_hdr_nbytes
         return None
 
     def owner(self, ref):
@@ -95,7 +104,39 @@ class DropModel:
             st.ghost["dropped"].append(obj)
             return [(st, Token("unit"))]
 
+        def vec_len(m, st, fn, callee, args, dty):
+            return [(st, z3.BitVecVal(len(m.load(st, args[0].base, args[0].proj).items), 64))]
+
+        def concrete_index(idx):
+            idx = z3.simplify(idx)
+            if not z3.is_bv_value(idx):
+                raise Unknown("symbolic index into the heap list")
+            return idx.as_long()
+
+        def vec_index(m, st, fn, callee, args, dty):
+            q = m.load(st, args[0].base, args[0].proj)
+            i = concrete_index(args[1])
+            if i >= len(q.items):
+                m.oblige("index past the end of the heap list (host panic)", st, z3.BoolVal(True))
+                return []
+            return [(st, Ref(args[0].base, args[0].proj + (("q", i),)))]
+
+        def vec_swap_remove(m, st, fn, callee, args, dty):
+            q = m.load(st, args[0].base, args[0].proj)
+            i = concrete_index(args[1])
+            if i >= len(q.items):
+                m.oblige("swap_remove past the end of the heap list (host panic)", st, z3.BoolVal(True))
+                return []
+            v = q.items[i]
+            last = q.items.pop()
+            if i < len(q.items):
+                q.items[i] = last
+            return [(st, v)]
+
         return [
+            (r"^Vec::<\*mut ObjectHeader>::len$", vec_len),
+            (r"^<Vec<\*mut ObjectHeader> as Index<usize>>::index$", vec_index),
+            (r"^Vec::<\*mut ObjectHeader>::swap_remove$", vec_swap_remove),
             (r"as IntoIterator>::into_iter$", into_iter),
             (r"as Iterator>::next$", iter_next),
             (r"^\w+Object::nbytes$", nbytes),
@@ -127,6 +168,39 @@ class DropModel:
         tobj = st.alloc(t)
         res = self.m.call(st, self.fn_thread, [Ref(("H", tobj))])
         return [(s, objs, s.heap[tobj].f[self.tf["heap_size"]]) for s, _ in res]
+
+    def sweep_run(self, k):
+        """one call of sweep(batch) with a symbolic batch from Sweeping { index: 0 } over k objects of symbolic kind, size and mark bit"""
+        if not (self.fn_sweep and self.fn_hdr_nbytes):
+            raise Unknown("no MIR for VmGreenThread::sweep / ObjectHeader::nbytes")
+        for need in ("gc_state", "gc_visited", "last_gc_heap_size"):
+            if need not in self.tf:
+                raise Unknown("VmGreenThread has no field %s" % need)
+        st = mirvm.State()
+        st.ghost = {"dropped": []}
+        objs, total, marks, sizes = [], z3.BitVecVal(0, 64), [], []
+        for i in range(k):
+            o, nb = self.new_object(st, i)
+            vis = z3.Bool("visited_%d" % i)
+            st.heap[o].f["hdr"].f[1] = vis
+            st.pc.append(z3.UGT(nb, 0))
+            objs.append(o)
+            marks.append(vis)
+            sizes.append(nb)
+            total = total + nb
+        gcv = z3.Bool("gc_visited")
+        batch = z3.BitVec("batch", 64)
+        st.pc.append(z3.ULT(batch, 1 << 41))
+        t = Struct("VmGreenThread", {
+            self.tf["heap_list"]: QueueV([Ref(("H", o), ("hdr",)) for o in objs]),
+            self.tf["heap_size"]: total,
+            self.tf["gc_state"]: Enum("GcState", self.gc_states["Sweeping"], {self.gc_states["Sweeping"]: [z3.BitVecVal(0, 64)]}),
+            self.tf["gc_visited"]: gcv,
+            self.tf["last_gc_heap_size"]: z3.BitVec("last_gc_heap_size", 64),
+        })
+        tobj = st.alloc(t)
+        res = self.m.call(st, self.fn_sweep, [Ref(("H", tobj)), batch])
+        return [(s, s.heap[tobj], objs, marks, sizes, gcv, total) for s, _ in res]
 
     def shared_drop(self, k):
         if not self.fn_shared:
